@@ -143,6 +143,8 @@ def check(ctx):
            detail={"callers": callers})
 
     check_byte_api(ctx)
+    from rules import extractors as _ex
+    _ex.check_extractors(ctx.under("R-3", "extractors"), "R-3", only={"try_as_tag"})
 
     # ---- R-4 protected header path ------------------------------------------------
     ph = prog.fn("header::ProtectedHeader::from_cbor_bstr_depth")
